@@ -142,6 +142,7 @@ def case_blur(ctx, rng, wd, unequal, big=False):
     cut = float(rng.uniform(0.8, 0.49 * L.min() / 0.5 * 0.5))
     cut = min(cut, 0.49 * L.min())
     ppp = gc.random_mask(rng, d)
+    gc.unwrap_in_place(rng, snaps.snapshots, [c["H"] for c in cells], ppp)       # unwrapped coordinates (particles outside the bounds the grid spans)
     if ckind != "ortho":
         cut = min(cut, 0.95 * min(geom.agreement_radius(c["H"], ppp) for c in cells))      # R2: one image only inside the cut-off
     pin = ppp if rng.random() < 0.7 or d == 3 else np.array([ppp[0], ppp[1], 1])       # a longer mask is cut to the dimension
